@@ -140,6 +140,8 @@ class RoleEval:
                         r = a == b
                     elif op == "!=":
                         r = a != b
+                    elif op in ("is", "is not") and (isinstance(a, bool) or a is None) and (isinstance(b, bool) or b is None):
+                        r = (a is b) if op == "is" else (a is not b)
                     else:
                         self.unknown_atoms.append(show(t))
                         return UNKNOWN
